@@ -351,14 +351,16 @@ func shortStack() string {
 	return s
 }
 
-// reasonSlug is the letters-only skeleton of the innermost part of an error text (seed independent).
+// reasonSlug is the letters-only skeleton of an error text without its "failed to protobuf <type>:" prefix (seed independent).
 func reasonSlug(err error) string {
 	if err == nil {
 		return "nil-message"
 	}
 	s := err.Error()
-	if i := strings.LastIndex(s, ": "); i >= 0 && i+2 < len(s) {
-		s = s[i+2:]
+	if strings.HasPrefix(s, "failed to protobuf ") {
+		if i := strings.Index(s, ": "); i >= 0 && i+2 < len(s) {
+			s = s[i+2:]
+		}
 	}
 	return errClass(s)
 }
